@@ -2,6 +2,7 @@
 line forms:  <hex>            structural dump (same format as the model's x86dis suite)
              r <hex>          renderings: intel || att   (or CRASH <Exception> per rendering)
              f <off> <hex>    flow metadata of the instruction decoded at stream offset <off> (hex is the instruction)
+             f16 <off> <hex>  as f, decoded as in a 16-bit code segment (attrib {'opmode': u16}); the length is appended
              s <off> <hex>    decode from a stream positioned at <off> bytes of padding: len, offset, stream position after"""
 import sys, binascii, logging
 logging.disable(logging.CRITICAL)
@@ -30,12 +31,12 @@ def one(l):
             try: out.append(i.__str__(asm_format=fmt))
             except Exception as e: out.append('CRASH %s' % type(e).__name__)
         return ' || '.join(out)
-    if t[0] in ('f', 's'):
+    if t[0] in ('f', 's', 'f16'):
         off = int(t[1]); b = binascii.unhexlify(t[2])
         class S(bin_stream.__class__): pass
         bs = bin_stream(b'\x90' * (off % 64) + b)
         bs.offset = off % 64
-        i = x86mnemo.dis(bs)
+        i = x86mnemo.dis(bs, {'opmode': X.u16}) if t[0] == 'f16' else x86mnemo.dis(bs)      # f16: a 16-bit code segment, selected by 'opmode' alone
         if i is None: return 'None'
         if t[0] == 's':
             return '%d|%d|%d|%s' % (i.l, i.offset, bs.offset, binascii.hexlify(i.b).decode())
@@ -46,6 +47,7 @@ def one(l):
             if d is None: ds = '-'
             else: ds = ','.join((str(int(x)) if not isinstance(x, dict) else 'arg') for x in d)
         except Exception as e: ds = 'CRASH %s' % type(e).__name__
+        if t[0] == 'f16': return '%s|%s|%s|%s|%d|%s|%d' % (i.m.name, flag(i.breakflow()), flag(i.splitflow()), flag(i.dstflow()), i.getnextflow(), ds, i.l)
         return '%s|%s|%s|%s|%d|%s' % (i.m.name, flag(i.breakflow()), flag(i.splitflow()), flag(i.dstflow()), i.getnextflow(), ds)
     b = binascii.unhexlify(t[0]); i = x86mnemo.dis(b)
     if i is None: return 'None'
